@@ -423,6 +423,81 @@ def r02g(rep, F):
     rep.require_count('R02g', 'blocks clearing the solution arrays', n, 4)
 
 
+def r02h(rep, F):
+    rep.rule('R02h', 'sibling agreement in PathControl: every conversion of a stored control duration into a step count '
+                     '(controlDurations_[i] / res in interpolate, check and print) rounds to the nearest integer, floor(0.5 + d / res); '
+                     'durations are k * stepSize in floating point, and a truncating cast turns k into k - 1 whenever the quotient lands '
+                     'just below k, so the replayed segment stops one step short of the recorded next state')
+    n = 0
+    for f in F.functions:
+        if f.record != C + 'PathControl' or not f.body:
+            continue
+        for x in f.walk():
+            if x['k'] != 'BinaryOperator' or x.get('op') != '/' or 'controlDurations_' not in f.fp(x['ch'][0]):
+                continue
+            n += 1
+            ok = False
+            prev = x['id']
+            for a in f.ancestors(x['id']):
+                if a['k'] in ('ParenExpr', 'ImplicitCastExpr'):
+                    prev = a['id']
+                    continue
+                if a['k'] == 'BinaryOperator' and a.get('op') == '+':
+                    other = [c for c in a['ch'] if c != prev]
+                    o = f.strip(other[0]) if other else None
+                    if o is not None and o['k'] == 'FloatingLiteral' and abs(float(o['v']) - 0.5) < 1e-12:
+                        par = next((b for b in f.ancestors(a['id']) if b['k'] not in ('ParenExpr', 'ImplicitCastExpr')), None)
+                        if par is not None and (par.get('callee') or '').split('::')[-1] == 'floor':
+                            ok = True
+                break
+            rep.add('R02h', f.name, 'steps-from-duration#%d' % f.line(x), ok, f.where(x), 'floor(0.5 + duration / stepSize)' if ok else
+                    'the step count is obtained from duration / stepSize without rounding to nearest (the sibling conversions in this class use '
+                    'floor(0.5 + .)): k * stepSize / stepSize can be k - epsilon')
+    rep.require_count('R02h', 'duration-to-steps conversions', n, 3)
+
+
+def r02i(rep, F):
+    rep.rule('R02i', 'control::SpaceInformation advances the system only in propagation steps: every call of StatePropagator::propagate in '
+                     'its propagate / propagateWhileValid overloads passes +stepSize_ or -stepSize_ (directly or through a local whose '
+                     'every definition selects between the two) as the duration -- never a multiple.  Planners and PathControl replay '
+                     'k steps as k calls; one call of k * stepSize follows a different trajectory for any non-additive propagator')
+    n = 0
+    for f in F.functions:
+        if f.record != C + 'SpaceInformation' or not f.body:
+            continue
+        defs = {}
+        for x in f.walk():
+            if x['k'] == 'DeclStmt':
+                for d in x.get('decls', []):
+                    if d.get('init'):
+                        defs.setdefault('%s#%d' % (d['name'], d['did']), []).append(d['init'])
+            elif x['k'] == 'BinaryOperator' and x.get('op') == '=' and key(f, x['ch'][0]):
+                defs.setdefault(key(f, x['ch'][0]), []).append(x['ch'][1])
+
+        def unit(nid, depth=0):
+            e = f.strip(nid)
+            if e is None or depth > 4:
+                return False
+            if e['k'] == 'MemberExpr' and e.get('name') == 'stepSize_':
+                return True
+            if e['k'] == 'UnaryOperator' and e.get('op') == '-':
+                return unit(e['ch'][0], depth + 1)
+            if e['k'] == 'ConditionalOperator':
+                return unit(e['ch'][1], depth + 1) and unit(e['ch'][2], depth + 1)
+            if e['k'] == 'DeclRefExpr' and e.get('dk') == 'Local':
+                ds = defs.get('%s#%d' % (e['name'], e['did']), [])
+                return bool(ds) and all(unit(d, depth + 1) for d in ds)
+            return False
+        for c in f.walk():
+            if (c.get('callee') or '').endswith('StatePropagator::propagate') and len(args(f, c)) >= 4:
+                n += 1
+                ok = unit(args(f, c)[2])
+                rep.add('R02i', f.name, 'one-step-duration#%d' % f.line(c), ok, f.where(c), 'duration is +/- stepSize_' if ok else
+                        'the propagator is called with duration %s, not with one propagation step: the result is not the state that '
+                        'step-by-step replay reaches' % nofp(f.fp(args(f, c)[2])))
+    rep.require_count('R02i', 'propagator calls in control::SpaceInformation', n, 8)
+
+
 def run(rep):
     units = P.control_units() + [src('control', 'src', 'SpaceInformation.cpp'), src('control', 'src', 'SimpleDirectedControlSampler.cpp'),
                                  src('control', 'src', 'PathControl.cpp'),
@@ -436,6 +511,8 @@ def run(rep):
     r02e(rep, F)
     r02f(rep, F)
     r02g(rep, F)
+    r02h(rep, F)
+    r02i(rep, F)
     solves = [f for f in P.solve_functions(F) if f.name.startswith(C)]
     must, may = c03.add_summaries(F)
     c03.r03a(rep, F, solves, must, may, rule='R02s', frozen=6)
